@@ -158,6 +158,28 @@ def compare(child, flat, values, classes_chain, label):
         except Exception as exc:  # noqa: BLE001
             return type(exc).__name__
 
+    # ... and the other way round: what the subclass built is an instance of every ancestor, so every ancestor (alone,
+    # as array items, as a property) takes it as it is
+    for value in [v for v in values if isinstance(v, dict)][:4]:
+        made = observe.verdict(child, value)
+        if made[0] != "ok" or isinstance(made[1], NotPassed) or not isinstance(made[1], child):
+            continue
+        for anc in classes_chain:
+            if anc is child:
+                continue
+            for how, call in (("direct", lambda a=anc: a(made[1])), ("array-item", lambda a=anc: Array(a)([made[1]])[0])):
+                try:
+                    with __import__("warnings").catch_warnings():
+                        __import__("warnings").simplefilter("ignore")
+                        back = call()
+                    if back is not made[1]:
+                        fails.append({"sub": "instance-input", "kind": "ancestor-rebuilt-an-instance-of-its-subclass",
+                                      "ancestor": anc.__name__, "how": how, "value": value, "when": label})
+                except Exception as exc:  # noqa: BLE001
+                    fails.append({"sub": "instance-input", "kind": "ancestor-refused-an-instance-of-its-subclass:" +
+                                  type(exc).__name__, "ancestor": anc.__name__, "how": how, "value": value, "when": label})
+                    break
+        break
     for anc in classes_chain:
         if anc is child:
             continue  # (its own instances are passed through by the subclass and refused by the flat class)
